@@ -169,7 +169,7 @@ impl Game {
 
         match maybe_chess_move {
             Some(result) => Ok(result.clone()),
-            None => return Err(GameError::InvalidMove),
+            None => self.select_alpha_beta_best_move(),
         }
     }
 
